@@ -46,7 +46,7 @@ pub fn def(ctx: &Ctx) -> PropDef {
         explanation: None,
         assumptions: vec!["refmodel::misc::Xor128 is the xor128 step of the paper (validated against the crate's published vector and the Python model)".into()],
         subs: vec![
-            PSub::boxed("stream", t.pick(8000, 1_000_000), move || (gens::seed_for(Ty::XorShift, false), steps.clone()).prop_map(|(seed, steps)| Case { seed, steps }).boxed(), check),
+            PSub::boxed("stream", t.pick(40_000, 6_000_000), move || (gens::seed_for(Ty::XorShift, false), steps.clone()).prop_map(|(seed, steps)| Case { seed, steps }).boxed(), check),
             PSub::boxed("long", t.pick(30, 100), move || gens::seed_for(Ty::XorShift, false).prop_map(move |seed| Case { seed, steps: long }).boxed(), check),
         ],
     }
